@@ -93,13 +93,13 @@ func (s scen) trigger() time.Duration {
 
 // result of one execution
 type result struct {
-	Steps      []*step
-	CutReached bool
-	CutAt      time.Duration
-	End        time.Duration
-	Dead       [2]bool
-	HSDone     [2]bool
-	StateAtCut [2]string
+	Steps        []*step
+	CutReached   bool
+	CutAt        time.Duration
+	End          time.Duration
+	Dead         [2]bool
+	HSDone       [2]bool
+	StateAtCut   [2]string
 	FolDelivered int    // datagrams delivered by the follow-up
 	FolNote      string // why a follow-up had nothing to deliver
 	Storm        string // non-empty: the zero-time exchange did not terminate
@@ -107,7 +107,12 @@ type result struct {
 	ToX          int // datagrams delivered to X in the prefix
 }
 
-const closureCap = 400 // deliveries allowed in one zero-time closure (release / heal phase)
+// closureCap: deliveries allowed in one zero-time closure (release / heal phase) before the exchange is
+// called a storm. The per-datagram bound itself (C emissions per received datagram, bound-reaction /
+// bound-total) is the oracle's; this cap only has to tell a chain reaction that dies out from one that does
+// not, so it grows with what the release hands over: every released datagram may draw C emissions, and each
+// of those one more round (an acknowledgement and the re-send it triggers).
+const closureCap = 400
 
 // garbage kinds (never sent by any endpoint)
 func garbageKinds(old []byte) [][]byte {
@@ -244,6 +249,7 @@ func execute(w *world.World, p *world.PKI, sc scen) (res result) {
 		target = P
 	}
 	closure := 0
+	capNow := closureCap
 
 	// sweep handles everything in flight according to the current policy
 	sweep := func() {
@@ -265,9 +271,9 @@ func execute(w *world.World, p *world.PKI, sc scen) (res result) {
 				d.deliverDatagram(h, inNew, "in-flight-at-cut")
 			case connected:
 				closure++
-				if closure > closureCap {
+				if closure > capNow {
 					if res.Storm == "" {
-						res.Storm = fmt.Sprintf("more than %d datagrams exchanged in zero fake time after the release at %v (still in flight: %s)", closureCap, d.now(), shapeOf(h.Data))
+						res.Storm = fmt.Sprintf("more than %d datagrams exchanged in zero fake time after the release at %v (still in flight: %s)", capNow, d.now(), shapeOf(h.Data))
 					}
 					w.Take(h)
 					continue
@@ -452,6 +458,7 @@ func execute(w *world.World, p *world.PKI, sc scen) (res result) {
 			res.FolNote = "nothing was withheld"
 		}
 		connected = true
+		capNow = closureCap + 40*len(held)
 		for _, x := range held {
 			closure++
 			d.deliverDatagram(x, inUnknown, "release")
